@@ -111,4 +111,72 @@ func wssSNI(r *run.R) {
 		cl.Close()
 		srv.Close()
 	}
+	dnsNames(r)
+}
+
+// failingResolver: the swarm's own DNS resolver is down (every lookup fails).
+type failingResolver struct{}
+
+func (failingResolver) ResolveDNSAddr(context.Context, peer.ID, ma.Multiaddr, int, int) ([]ma.Multiaddr, error) {
+	return nil, fmt.Errorf("verif: resolver unavailable")
+}
+func (failingResolver) ResolveDNSComponent(context.Context, ma.Multiaddr, int) ([]ma.Multiaddr, error) {
+	return nil, fmt.Errorf("verif: resolver unavailable")
+}
+
+// dnsNames: a peer known only by a /dns4 name that resolves to a BLOCKED address, with the swarm's own
+// resolver working or failing (the WebSocket transport can resolve names by itself): whatever fails on
+// the way, no connection to the blocked address may result.
+func dnsNames(r *run.R) {
+	for _, resolver := range []string{"default", "failing"} {
+		caseID := "socket/ws-dns-name/swarm-resolver-" + resolver
+		if !r.Want(caseID) || r.TooMany() {
+			continue
+		}
+		srv, err := libp2p.New(libp2p.Transport(websocket.New), libp2p.ListenAddrStrings("/ip4/127.0.0.1/tcp/0/ws"), libp2p.DisableRelay(), libp2p.DisableMetrics())
+		if err != nil {
+			r.Count("ws_dns_skipped_listener_failed", 1)
+			continue
+		}
+		port := ""
+		for _, a := range srv.Addrs() {
+			if p, err := a.ValueForProtocol(ma.P_TCP); err == nil {
+				port = p
+			}
+		}
+		cg, _ := conngater.NewBasicConnectionGater(nil)
+		blocked := net.ParseIP("127.0.0.1")
+		cg.BlockAddr(blocked)
+		opts := []libp2p.Option{libp2p.NoListenAddrs, libp2p.Transport(websocket.New), libp2p.ConnectionGater(cg), libp2p.DisableRelay(), libp2p.DisableMetrics()}
+		if resolver == "failing" {
+			opts = append(opts, libp2p.MultiaddrResolver(failingResolver{}))
+		}
+		cl, err := libp2p.New(opts...)
+		if err != nil {
+			srv.Close()
+			continue
+		}
+		addr := ma.StringCast("/dns4/localhost/tcp/" + port + "/ws")
+		ctx, cancel := context.WithTimeout(context.Background(), 10*time.Second)
+		cerr := cl.Connect(ctx, peer.AddrInfo{ID: srv.ID(), Addrs: []ma.Multiaddr{addr}})
+		cancel()
+		r.Eval(1)
+		r.Count("ws_dns_dials", 1)
+		bad := ""
+		for _, c := range cl.Network().ConnsToPeer(srv.ID()) {
+			bad = c.RemoteMultiaddr().String()
+		}
+		if bad == "" && len(srv.Network().ConnsToPeer(cl.ID())) > 0 {
+			bad = "(seen by the peer that listens on the blocked address only)"
+		}
+		if bad != "" {
+			r.Violation("socket/ws-dns-name/connection-to-blocked-address-admitted", caseID,
+				fmt.Sprintf("the gater blocks 127.0.0.1 (where the peer listens, and what localhost resolves to); dialling %s with the swarm's resolver %s left a connection: %s", addr, resolver, bad),
+				map[string]any{"dialled": addr.String(), "swarm_resolver": resolver, "connect_error": fmt.Sprint(cerr)})
+		} else {
+			r.Nontrivial(caseID)
+		}
+		cl.Close()
+		srv.Close()
+	}
 }
